@@ -34,7 +34,7 @@ def cells(tier, seed):
     out = []
     Ds = (1, 2, 3, 5) if tier == "quick" else (1, 2, 3, 4, 5, 6)
     Rs = (1, 3) if tier == "quick" else (1, 2, 4, 6)
-    reps = 1 if tier == "quick" else 4
+    reps = 1 if tier == "quick" else 6
     for mk in build.MEASURE_KINDS:
         for R in Rs:
             for D in Ds:
